@@ -166,12 +166,13 @@ def rand_num_wide(rng, n, allow_implicit, max_zeros=50):
     return ("0" * z) + str(n)
 
 
-HUGE = [10 ** 4000 + 3, 10 ** 4000 + 4, 7 * 10 ** 4100]      # 4001-4101 digits: with a zero run of 50 still below CPython's 4300-digit int() limit
+HUGE = [10 ** 1000 + 3, 10 ** 1000 + 4, 7 * 10 ** 1100]      # ~1000 digits (the extracted model needs ~0.1 s for each; 4000 digits: seconds)
+HUGE4K = [10 ** 4000 + 3, 10 ** 4000 + 4, 7 * 10 ** 4100]   # with a zero run of 50 still below CPython's 4300-digit int() limit; thorough tier only
 
 
 def wide_int(rng):
     k = rng.random()
-    if k < 0.004: return rng.choice(HUGE)
+    if k < 0.002: return rng.choice(HUGE)
     if k < 0.55: return rng.choice(SMALL)
     if k < 0.75: return rng.choice(BIG_WIDE)
     if k < 0.9: return rng.randrange(10 ** rng.choice([1, 2, 5, 12, 19, 20, 30]))
